@@ -27,3 +27,242 @@ pub fn spec_class(code: i16) -> u8 {
         0x08
     }
 }
+
+// ------------------------------------------------------------------------------------------
+// C03: SCPI-99 Vol.1 6.2.1 (long/short form), 6.2.5.2 (numeric suffix, default 1)
+// ------------------------------------------------------------------------------------------
+pub fn is_up(b: u8) -> bool {
+    b >= b'A' && b <= b'Z'
+}
+pub fn is_low(b: u8) -> bool {
+    b >= b'a' && b <= b'z'
+}
+pub fn is_dig(b: u8) -> bool {
+    b >= b'0' && b <= b'9'
+}
+pub fn to_low(b: u8) -> u8 {
+    if is_up(b) {
+        b + 32
+    } else {
+        b
+    }
+}
+/// Case-insensitive equality of two byte strings.
+pub fn eq_ic(a: &[u8], b: &[u8]) -> bool {
+    if a.len() != b.len() {
+        return false;
+    }
+    let mut i = 0;
+    while i < a.len() {
+        if to_low(a[i]) != to_low(b[i]) {
+            return false;
+        }
+        i += 1;
+    }
+    true
+}
+/// Start of the maximal trailing digit run.
+pub fn suffix_start(s: &[u8]) -> usize {
+    let mut i = s.len();
+    while i > 0 && is_dig(s[i - 1]) {
+        i -= 1;
+    }
+    i
+}
+/// Length of the leading upper-case run (the short form of a definition's alphabetic part).
+pub fn short_len(s: &[u8]) -> usize {
+    let mut i = 0;
+    while i < s.len() && is_up(s[i]) {
+        i += 1;
+    }
+    i
+}
+/// Definition of SCPI shape: 1-12 chars, `[A-Z]+[a-z]*[0-9]*`, suffix without leading zero.
+pub fn spec_shape(def: &[u8]) -> bool {
+    if def.is_empty() || def.len() > 12 {
+        return false;
+    }
+    let k = suffix_start(def);
+    let u = short_len(&def[..k]);
+    if u == 0 {
+        return false;
+    }
+    let mut i = u;
+    while i < k {
+        if !is_low(def[i]) {
+            return false;
+        }
+        i += 1;
+    }
+    !(def.len() - k > 1 && def[k] == b'0') && !(def.len() - k == 1 && def[k] == b'0')
+}
+/// Candidate: 1-12 chars over letters, digits, underscore; a numeric suffix has no leading zero.
+pub fn spec_cand(s: &[u8]) -> bool {
+    if s.is_empty() || s.len() > 12 {
+        return false;
+    }
+    let mut i = 0;
+    while i < s.len() {
+        let c = s[i];
+        if !(is_up(c) || is_low(c) || is_dig(c) || c == b'_') {
+            return false;
+        }
+        i += 1;
+    }
+    let k = suffix_start(s);
+    !(s.len() - k > 1 && s[k] == b'0')
+}
+/// Keyword comparison: `cand` is the complete long form, or the short form, ignoring case.
+/// A definition that carries digits only matches spelled out in full.
+pub fn spec_compare(def: &[u8], cand: &[u8]) -> bool {
+    if eq_ic(cand, def) {
+        return true;
+    }
+    let k = suffix_start(def);
+    k == def.len() && eq_ic(cand, &def[..short_len(def)])
+}
+fn suffix_or_one(s: &[u8], k: usize) -> &[u8] {
+    if k == s.len() || k == 0 {
+        b"1"
+    } else {
+        &s[k..]
+    }
+}
+/// Header / character-data match with the default-1 suffix rule.
+pub fn spec_match(def: &[u8], cand: &[u8]) -> bool {
+    let kd = suffix_start(def);
+    let mut kc = suffix_start(cand);
+    if kc == 0 {
+        // all digits: no alphabetic part at all, cannot match a definition
+        kc = cand.len();
+    }
+    let ad = &def[..kd];
+    let ac = &cand[..kc];
+    let alpha_ok = eq_ic(ac, ad) || eq_ic(ac, &ad[..short_len(ad)]);
+    let sd = suffix_or_one(def, kd);
+    let sc = suffix_or_one(cand, kc);
+    alpha_ok && sd.len() == sc.len() && eq_ic(sd, sc)
+}
+
+// ------------------------------------------------------------------------------------------
+// Response elements: independent encoders/decoders (IEEE 488.2 8.7)
+// ------------------------------------------------------------------------------------------
+/// Canonical NR1 text of an integer: optional '-', no leading zeros.  Returns the length used.
+pub fn spec_dec(v: i128, buf: &mut [u8; 40]) -> usize {
+    let mut tmp = [0u8; 40];
+    let mut n = 0;
+    let neg = v < 0;
+    let mut m: u128 = if neg { (-(v + 1)) as u128 + 1 } else { v as u128 };
+    if m == 0 {
+        tmp[0] = b'0';
+        n = 1;
+    }
+    while m > 0 {
+        tmp[n] = b'0' + (m % 10) as u8;
+        m /= 10;
+        n += 1;
+    }
+    let mut k = 0;
+    if neg {
+        buf[0] = b'-';
+        k = 1;
+    }
+    let mut i = 0;
+    while i < n {
+        buf[k + i] = tmp[n - 1 - i];
+        i += 1;
+    }
+    k + n
+}
+/// Decode an NR1 response element: `[+-]?digits`.
+pub fn spec_parse_dec(s: &[u8]) -> Option<i128> {
+    let mut i = 0;
+    let mut neg = false;
+    if i < s.len() && (s[i] == b'-' || s[i] == b'+') {
+        neg = s[i] == b'-';
+        i += 1;
+    }
+    if i >= s.len() {
+        return None;
+    }
+    let mut v: i128 = 0;
+    while i < s.len() {
+        if !is_dig(s[i]) {
+            return None;
+        }
+        v = v * 10 + (s[i] - b'0') as i128;
+        i += 1;
+    }
+    Some(if neg { -v } else { v })
+}
+pub fn bytes_eq(a: &[u8], b: &[u8]) -> bool {
+    if a.len() != b.len() {
+        return false;
+    }
+    let mut i = 0;
+    while i < a.len() {
+        if a[i] != b[i] {
+            return false;
+        }
+        i += 1;
+    }
+    true
+}
+
+// ------------------------------------------------------------------------------------------
+// C15 / C16: IEEE 488.2 11 status model, SCPI-99 Vol.1 20 (STATus)
+// ------------------------------------------------------------------------------------------
+/// Bits latched into the event register by one condition update, per transition filter.
+pub fn spec_latch(old_cond: u16, new_cond: u16, ptr: u16, ntr: u16) -> u16 {
+    let mut r = 0u16;
+    let mut b = 0;
+    while b < 16 {
+        let m = 1u16 << b;
+        let was = old_cond & m != 0;
+        let is = new_cond & m != 0;
+        if !was && is && (ptr & m != 0) {
+            r |= m;
+        }
+        if was && !is && (ntr & m != 0) {
+            r |= m;
+        }
+        b += 1;
+    }
+    r
+}
+/// Summary of an event-register set as used by the status byte (bit 15 never takes part).
+pub fn spec_summary(condition: u16, enable: u16) -> bool {
+    let mut b = 0;
+    while b < 15 {
+        let m = 1u16 << b;
+        if condition & m != 0 && enable & m != 0 {
+            return true;
+        }
+        b += 1;
+    }
+    false
+}
+/// IEEE 488.2 11.2 status byte with master summary status in bit 6.
+pub fn spec_stb(queue_nonempty: bool, ques: bool, oper: bool, mav: bool, esr: u8, ese: u8, sre: u8) -> u8 {
+    let mut stb = 0u8;
+    if queue_nonempty {
+        stb |= 1 << 2;
+    }
+    if ques {
+        stb |= 1 << 3;
+    }
+    if mav {
+        stb |= 1 << 4;
+    }
+    if esr & ese != 0 {
+        stb |= 1 << 5;
+    }
+    if oper {
+        stb |= 1 << 7;
+    }
+    // MSS: any reported bit other than bit 6 enabled in SRE
+    if stb & sre & 0xBF != 0 {
+        stb |= 1 << 6;
+    }
+    stb
+}
